@@ -15,8 +15,11 @@ pub struct Case14 {
     /// finite prefix: value texts (qualifying or not)
     pub prefix: Vec<String>,
     pub set: bool,
+    /// also predefine a macro (`--set @m=.n`); filter 3 uses it
+    #[serde(default)]
+    pub set_macro: bool,
     pub split: bool,
-    /// 0 none, 1 (number? .n), 2 (not (= .n -1))
+    /// 0 none, 1 (number? .n), 2 (not (= .n -1)), 3 (number? @m) with --set @m=.n
     pub filter: u8,
     /// 0 none, 1 one selection, 2 two selections
     pub select: u8,
@@ -50,12 +53,16 @@ impl Case14 {
         if self.set {
             a.push("--set=v=1".to_string());
         }
+        if self.set_macro || self.filter == 3 {
+            a.push("--set=@m=.n".to_string());
+        }
         if self.split {
             a.push("--split-by=.items".to_string());
         }
         match self.filter {
             1 => a.push("--filter=(number? .n)".to_string()),
             2 => a.push("--filter=(not (= .n -1))".to_string()),
+            3 => a.push("--filter=(number? @m)".to_string()),
             _ => {}
         }
         match self.select {
@@ -170,8 +177,8 @@ impl Check for C14Stop {
             4 => (0u32..5, 0u32..3).prop_map(|(n, k)| format!("{{\"n\":{},\"items\":[{{\"n\":{},\"k\":{}}}]}}", n, n, k)),
             1 => prop::sample::select(vec!["1", "\"s\"", "null", "[]", "{}", "{\"n\":-1,\"items\":[]}", "{\"items\":[1,2]}", "{\"n\":\"x\"}"]).prop_map(|s| s.to_string()),
         ];
-        (vec(pv, 0..12), any::<[bool; 4]>(), 0u8..3, 0u8..3, 0u64..=3, 0u64..=5, prop::bool::weighted(0.15), 0u8..15)
-            .prop_map(|(prefix, b, filter, select, skip, take, file, tail_items)| Case14 { prefix, set: b[0], split: b[1], filter, select, unique: b[2], only_objects: b[3], skip, take, file, tail_items: 1 + tail_items % 3, tail_kind: [0, 0, 0, 1, 2][(tail_items / 3) as usize % 5] })
+        (vec(pv, 0..12), any::<[bool; 5]>(), 0u8..4, 0u8..3, 0u64..=3, 0u64..=5, prop::bool::weighted(0.15), 0u8..15)
+            .prop_map(|(prefix, b, filter, select, skip, take, file, tail_items)| Case14 { prefix, set: b[0], set_macro: b[4], split: b[1], filter, select, unique: b[2], only_objects: b[3], skip, take, file, tail_items: 1 + tail_items % 3, tail_kind: [0, 0, 0, 1, 2][(tail_items / 3) as usize % 5] })
             .boxed()
     }
     fn check(&self, case: &Case14) -> CaseResult {
